@@ -32,9 +32,38 @@ Verdict(c) ==
       [] c.op = "robustfam" -> RobustFam(c)
       [] OTHER -> <<"REJECT", "UnknownOp", c.op>>
 
+\* ---- linked executions (C02 placeholder independence, C06 offset / reversal / linearity)
+ModeOf(variant) == IF variant \in {"v", "vp", "vplc"} THEN "eq" ELSE "full"
+NeedOf(variant) == IF variant \in {"wcv", "wcvp"} THEN 5 ELSE 2
+Rev(s) == [i \in 1..Len(s) |-> s[Len(s) + 1 - i]]
+MaxDiff(a, b) == LET D == {IF a[i] >= b[i] THEN a[i] - b[i] ELSE b[i] - a[i] : i \in 1..Len(a)} IN CHOOSE m \in D : \A o \in D : o <= m
+Link(c) ==
+    LET b == c.base  o == c.other
+        n == Len(b.out)
+        oo == IF c.rel = "reverse" THEN Rev(o.out) ELSE IF c.rel = "shift" THEN [i \in 1..Len(o.out) |-> o.out[i] - c.shift] ELSE o.out
+        samel == IF b.sgonly THEN b.sg = o.sg ELSE b.lopt = o.lopt
+    IN  IF Len(o.out) # n THEN <<"REJECT", "Length", "">>
+        ELSE IF c.rel = "affine" THEN
+             (IF \A j \in 1..n : ToString(o.out[j]) = c.line[j] THEN <<"ACCEPT", "", "">> ELSE <<"REJECT", "KeepsLinear", o.variant>>)
+        \* too few valid cells: both come back unchanged (each echoes its own placeholder), lambda 0
+        ELSE IF c.rel = "placeholder" /\ NValid(b.y, b.nd, ModeOf(b.variant)) < NeedOf(b.variant) THEN
+             (IF PassThroughOK(b.out, b.y) /\ PassThroughOK(o.out, o.y) /\ samel THEN <<"ACCEPT", "", "passthrough">>
+              ELSE <<"REJECT", "PassThrough", b.variant>>)
+        ELSE IF oo = b.out /\ samel THEN <<"ACCEPT", "", "">>
+        ELSE IF b.robust THEN
+             (IF samel /\ MaxDiff(oo, b.out) <= 1 /\ Cardinality({i \in 1..n : oo[i] # b.out[i]}) <= 1
+              THEN <<"SKIP", "robust-rounding-tie-undecidable", "">> ELSE <<"REJECT", c.rel, b.variant>>)
+        ELSE \* a difference is granted only where each side, judged alone by the exact contract, sits on a tie
+             LET vb == Verdict(b)  vo == Verdict(o) IN
+             IF vb[1] = "REJECT" THEN <<"REJECT", c.rel \o ":base:" \o vb[2], vb[3]>>
+             ELSE IF vo[1] = "REJECT" THEN <<"REJECT", c.rel \o ":other:" \o vo[2], vo[3]>>
+             ELSE IF vb[1] = "SKIP" \/ vo[1] = "SKIP" THEN <<"SKIP", "difference-outside-exact-contract", c.rel>>
+             ELSE IF samel /\ MaxDiff(oo, b.out) > 1 THEN <<"REJECT", c.rel, b.variant>>
+             ELSE <<"ACCEPT", "", "tie">>
+
 Init == k \in 1..Len(Cases) /\ v = "todo"
 Next == /\ v = "todo"
-        /\ LET r == Verdict(Cases[k]) IN PrintT(<<"V", k, r[1], r[2], r[3]>>) /\ v' = r[1]
+        /\ LET r == IF Cases[k].op = "link" THEN Link(Cases[k]) ELSE Verdict(Cases[k]) IN PrintT(<<"V", k, r[1], r[2], r[3]>>) /\ v' = r[1]
         /\ UNCHANGED k
 TraceSpec == Init /\ [][Next]_<<k, v>>
 =============================================================================
